@@ -93,9 +93,12 @@ def r04_6(ctx):
     fc = idx.func("c11_cast")
     fp = idx.func("promoted_type")
     groups = [("no flag (C type bool)", ()), ("PURE", ("PURE",)), ("PURE|BOOL", ("PURE", "BOOL")), ("PURE|CONST", ("PURE", "CONST")), ("PURE|HYBRID_LVAR", ("PURE", "HYBRID_LVAR")), ("CONST", ("CONST",))]
-    for gname, g in groups:
+    for gname, g, pos in [(gn, g_, pos) for gn, g_ in groups for pos in ("a", "b", "both")]:
         for (sa, wa), (sb, wb) in (((False, 1), (True, 32)), ((True, 32), (False, 1)), ((False, 8), (False, 8)), ((True, 64), (False, 32))):
-            outs = Interp(idx).explore(lambda i: i.call_function(fc, [mk_vt("a", sa, wa, g), mk_vt("b", sb, wb, ("PURE",))]))
+            ga, gb = (g if pos in ("a", "both") else ("PURE",)), (g if pos in ("b", "both") else ("PURE",))
+            if pos != "a" and g == ("PURE",):
+                continue
+            outs = Interp(idx).explore(lambda i: i.call_function(fc, [mk_vt("a", sa, wa, ga), mk_vt("b", sb, wb, gb)]))
             # table entry without promotion (c11_cast is the conversion step only)
             if sa == sb:
                 e = (sa, max(wa, wb))
@@ -108,8 +111,8 @@ def r04_6(ctx):
                     got.add(f"RAISE {o.value}")
                 else:
                     got.add(tuple((x.fields.get("_signed"), x.fields.get("_bit_width")) for x in o.value) if isinstance(o.value, (tuple, list)) else to_text(o.value))
-            ctx.check(f"c11_cast total [a: {gname} ({'s' if sa else 'u'},{wa}); b: ({'s' if sb else 'u'},{wb})]", got == {(e, e)}, str((e, e)), str(sorted(map(str, got))), fn_where(idx, fc))
-        for sa, wa in ((False, 1), (True, 8), (False, 32), (True, 64)):
+            ctx.check(f"c11_cast total [{gname} on {pos}: a ({'s' if sa else 'u'},{wa}); b ({'s' if sb else 'u'},{wb})]", got == {(e, e)}, str((e, e)), str(sorted(map(str, got))), fn_where(idx, fc))
+        for sa, wa in (((False, 1), (True, 8), (False, 32), (True, 64)) if pos == "a" else ()):
             outs = Interp(idx).explore(lambda i: i.call_function(fp, [mk_vt("a", sa, wa, g)]))
             e = (True, 32) if wa < 32 else (sa, wa)
             got = {("RAISE " + str(o.value)) if o.kind == "raise" else (o.value.fields.get("_signed"), o.value.fields.get("_bit_width")) for o in outs}
